@@ -155,11 +155,15 @@ Definition ex_mux : mux :=
                   (4600%Z, (true, ex_row_unit 22 ex_row1))] None ].
 Fixpoint chunk3 (evs : list tunit) (fuel : nat) : list pes :=
   match fuel, evs with
-  | S f, (t, u) :: (t2, u2) :: (t3, u3) :: r => if ((t =? t2) && (t2 =? t3))%Z then (t, 16, [u; u2; u3]) :: chunk3 r f else (t, 21, [u]) :: chunk3 ((t2, u2) :: (t3, u3) :: r) f
-  | S f, (t, u) :: r => (t, 31, [u]) :: chunk3 r f
+  | S f, (t, u) :: (t2, u2) :: (t3, u3) :: r => if ((t =? t2) && (t2 =? t3))%Z then PUnits t 16 [u; u2; u3] [] :: chunk3 r f else PUnits t 21 [u] [3; 44; 231] :: chunk3 ((t2, u2) :: (t3, u3) :: r) f
+  | S f, (t, u) :: r => PUnits t 31 [u] [] :: chunk3 r f
   | _, _ => []
   end.
-Definition ex_peses : list pes := chunk3 (events ex_sched ex_mux) 100 ++ [(5000%Z, 16, [])].
+(* with a packet without time and a packet with a foreign data identifier carrying our header, an empty payload that sets the
+   first presentation time, and a trailing packet that sets the last one *)
+Definition ex_peses : list pes :=
+  PInert 900 [] :: PNoTime (16 :: enc_unit (hdr_unit 231 8 (ex_hdr 8 8 4 false))) :: chunk3 (events ex_sched ex_mux) 100
+  ++ [PInert 4700 (32 :: enc_unit (hdr_unit 231 8 (ex_hdr 8 8 4 false))); PUnits 5000 16 [] [3]].
 
 Example ex_mux_ok : mux_ok ex_sched ex_mux = true. Proof. vm_compute. reflexivity. Qed.
 Example ex_pes_ok : forallb pes_ok ex_peses = true /\ flat_map pes_units ex_peses = events ex_sched ex_mux.
